@@ -4,7 +4,7 @@
        x := x||y||z||vx||vy||vz, y..vz := false;  h := h||k||ix||iy, k..iy := false;
        e := e||inc||Omega, inc,Omega := false
    (because these arguments only enter through the counters Ncart, Npal, Norb, Nnonpal / the notNone lists).
-   Step 2: canonical vectors are described by 15 bits; the statements are checked on all 2^15 of them by
+   Step 2: canonical vectors are described by 16 bits; the statements are checked on all 2^16 of them by
    vm_compute of a nested boolean `forall` whose soundness lemma is fb_spec. *)
 From Coq Require Import ZArith List Bool Lia ZifyBool Btauto.
 From RV Require Import C11.Parser.
@@ -49,10 +49,10 @@ Definition canon (fl : flags) : flags :=
     (qx fl || qy fl || qz fl || qvx fl || qvy fl || qvz fl) false false false false false
     (qa fl) (qP fl) (qe fl || qinc fl || qOmega fl) false false (qomega fl) (qpomega fl)
     (qf fl) (qM fl) (qE fl) (ql fl) (qtheta fl) (qT fl)
-    (qh fl || qk fl || qix fl || qiy fl) false false false.
+    (qh fl || qk fl || qix fl || qiy fl) false false false (qazero fl).
 
 Ltac projs := cbn [qsim qprimary qx qy qz qvx qvy qvz qa qP qe qinc qOmega qomega qpomega qf qM qE ql qtheta qT
-                   qh qk qix qiy].
+                   qh qk qix qiy qazero].
 
 (* both sides have the same `if` skeleton; equate the conditions one by one *)
 Ltac same_skeleton :=
@@ -67,7 +67,7 @@ Ltac same_skeleton :=
 
 Lemma c_canon : forall fl, decide_c fl = decide_c (canon fl).
 Proof.
-  intros [s pr x y z vx vy vz a P e inc Om om pom f M E l th T h k ix iy].
+  intros [s pr x y z vx vy vz a P e inc Om om pom f M E l th T h k ix iy az].
   unfold decide_c, canon, c_anom. projs. cbv zeta.
   rewrite !count_pos, !count_zero.
   same_skeleton.
@@ -75,7 +75,7 @@ Qed.
 
 Lemma py_canon : forall fl, decide_py fl = decide_py (canon fl).
 Proof.
-  intros [s pr x y z vx vy vz a P e inc Om om pom f M E l th T h k ix iy].
+  intros [s pr x y z vx vy vz a P e inc Om om pom f M E l th T h k ix iy az].
   unfold decide_py, canon, py_anom. projs. cbv zeta.
   rewrite !notNone_ex.
   same_skeleton.
@@ -91,29 +91,30 @@ Proof. destruct fl; unfold any_nonpal_py, canon; projs; btauto. Qed.
 Lemma canon_sim : forall fl, qsim (canon fl) = qsim fl. Proof. destruct fl; reflexivity. Qed.
 Lemma canon_a : forall fl, qa (canon fl) = qa fl. Proof. destruct fl; reflexivity. Qed.
 Lemma canon_P : forall fl, qP (canon fl) = qP fl. Proof. destruct fl; reflexivity. Qed.
+Lemma canon_az : forall fl, qazero (canon fl) = qazero fl. Proof. destruct fl; reflexivity. Qed.
 
-(* ---------------------------------------------------------------- the 2^15 canonical vectors *)
-Definition mk15 (s pr c a P o om pom f M E l th T p : bool) : flags :=
-  mkFlags s pr c false false false false false a P o false false om pom f M E l th T p false false false.
+(* ---------------------------------------------------------------- the 2^16 canonical vectors *)
+Definition mk16 (s pr c a P o om pom f M E l th T p az : bool) : flags :=
+  mkFlags s pr c false false false false false a P o false false om pom f M E l th T p false false false az.
 
-Lemma canon_is_mk15 : forall fl, canon fl =
-  mk15 (qsim fl) (qprimary fl) (qx fl || qy fl || qz fl || qvx fl || qvy fl || qvz fl) (qa fl) (qP fl)
+Lemma canon_is_mk16 : forall fl, canon fl =
+  mk16 (qsim fl) (qprimary fl) (qx fl || qy fl || qz fl || qvx fl || qvy fl || qvz fl) (qa fl) (qP fl)
        (qe fl || qinc fl || qOmega fl) (qomega fl) (qpomega fl) (qf fl) (qM fl) (qE fl) (ql fl) (qtheta fl) (qT fl)
-       (qh fl || qk fl || qix fl || qiy fl).
+       (qh fl || qk fl || qix fl || qiy fl) (qazero fl).
 Proof. reflexivity. Qed.
 
 Definition fb (p : bool -> bool) : bool := p true && p false.
 Lemma fb_spec : forall p, fb p = true -> forall b, p b = true.
 Proof. unfold fb. intros p H b. apply andb_true_iff in H. destruct b; tauto. Qed.
 
-Definition forall15 (p : flags -> bool) : bool :=
+Definition forall16 (p : flags -> bool) : bool :=
   fb (fun s => fb (fun pr => fb (fun c => fb (fun a => fb (fun P => fb (fun o => fb (fun om => fb (fun pom =>
-  fb (fun f => fb (fun M => fb (fun E => fb (fun l => fb (fun th => fb (fun T => fb (fun pl =>
-    p (mk15 s pr c a P o om pom f M E l th T pl)))))))))))))))).
+  fb (fun f => fb (fun M => fb (fun E => fb (fun l => fb (fun th => fb (fun T => fb (fun pl => fb (fun az =>
+    p (mk16 s pr c a P o om pom f M E l th T pl az))))))))))))))))).
 
-Lemma forall15_spec : forall p, forall15 p = true -> forall fl, p (canon fl) = true.
+Lemma forall16_spec : forall p, forall16 p = true -> forall fl, p (canon fl) = true.
 Proof.
-  intros p H fl. rewrite canon_is_mk15. unfold forall15 in H.
+  intros p H fl. rewrite canon_is_mk16. unfold forall16 in H.
   pose proof (fb_spec _ H (qsim fl)) as H1; cbv beta in H1.
   pose proof (fb_spec _ H1 (qprimary fl)) as H2; cbv beta in H2.
   pose proof (fb_spec _ H2 (qx fl || qy fl || qz fl || qvx fl || qvy fl || qvz fl)) as H3; cbv beta in H3.
@@ -129,7 +130,8 @@ Proof.
   pose proof (fb_spec _ H12 (qtheta fl)) as H13; cbv beta in H13.
   pose proof (fb_spec _ H13 (qT fl)) as H14; cbv beta in H14.
   pose proof (fb_spec _ H14 (qh fl || qk fl || qix fl || qiy fl)) as H15; cbv beta in H15.
-  exact H15.
+  pose proof (fb_spec _ H15 (qazero fl)) as H16; cbv beta in H16.
+  exact H16.
 Qed.
 
 (* ---------------------------------------------------------------- boolean equality of decisions *)
@@ -162,57 +164,32 @@ Proof.
 Qed.
 
 (* ---------------------------------------------------------------- agreement *)
-Definition disagree_cond (fl : flags) : bool := qprimary fl && any_pal fl && negb (any_nonpal_py fl).
+Definition chk_eq (fl : flags) : bool := dec_eqb (decide_py fl) (decide_c fl).
 
-Definition chk_iff (fl : flags) : bool :=
-  Bool.eqb (dec_eqb (decide_py fl) (decide_c fl)) (negb (disagree_cond fl)).
-
-Lemma chk_iff_all : forall15 chk_iff = true.
+Lemma chk_eq_all : forall16 chk_eq = true.
 Proof. vm_compute. reflexivity. Qed.
 
-Lemma disagree_iff_flags : forall fl, decide_py fl <> decide_c fl <-> disagree_cond fl = true.
+Lemma agree_flags : forall fl, decide_py fl = decide_c fl.
 Proof.
-  intro fl. pose proof (forall15_spec _ chk_iff_all fl) as H. unfold chk_iff in H.
-  rewrite <- py_canon, <- c_canon in H.
-  unfold disagree_cond in *. rewrite canon_primary, canon_pal, canon_nonpal in H.
-  apply eqb_prop in H.
-  destruct (qprimary fl && any_pal fl && negb (any_nonpal_py fl)); cbn [negb] in H; split; intro K.
-  - reflexivity.
-  - intro E. apply dec_eqb_spec in E. congruence.
-  - exfalso. apply K. apply dec_eqb_spec. exact H.
-  - discriminate.
+  intro fl. pose proof (forall16_spec _ chk_eq_all fl) as H. unfold chk_eq in H.
+  rewrite <- py_canon, <- c_canon in H. apply dec_eqb_spec. exact H.
 Qed.
 
-Lemma agree_flags : forall fl, qprimary fl && any_pal fl = false -> decide_py fl = decide_c fl.
-Proof.
-  intros fl Hn. destruct (dec_eqb (decide_py fl) (decide_c fl)) eqn:E.
-  - apply dec_eqb_spec. exact E.
-  - exfalso. assert (K : decide_py fl <> decide_c fl).
-    { intro K. apply dec_eqb_spec in K. congruence. }
-    apply disagree_iff_flags in K. unfold disagree_cond in K. rewrite Hn in K. discriminate.
-Qed.
-
-(* the disagreement is an accept/reject disagreement exactly when Python gets as far as building the orbit *)
-Definition accept_differ_cond (fl : flags) : bool :=
-  disagree_cond fl && negb (any_cart fl) && qsim fl && xorb (qa fl) (qP fl).
-
-Definition chk_acc (fl : flags) : bool :=
-  Bool.eqb (xorb (is_reject (decide_py fl)) (is_reject (decide_c fl))) (accept_differ_cond fl)
-  && implb (accept_differ_cond fl) (dec_eqb (decide_c fl) (Reject 7) && dec_eqb (decide_py fl) (Pal (negb (qa fl)))).
-
-Lemma chk_acc_all : forall15 chk_acc = true.
+(* primary is compatible with Pal variables in both front ends *)
+Definition chk_pp (fl : flags) : bool :=
+  implb (qprimary fl && any_pal fl && negb (any_nonpal_py fl) && negb (any_cart fl) && qsim fl && xorb (qa fl) (qP fl) && negb (qazero fl))
+        (dec_eqb (decide_c fl) (Pal (negb (qa fl))) && dec_eqb (decide_py fl) (Pal (negb (qa fl)))).
+Lemma chk_pp_all : forall16 chk_pp = true.
 Proof. vm_compute. reflexivity. Qed.
 
-Lemma accept_differ_flags : forall fl,
-  xorb (is_reject (decide_py fl)) (is_reject (decide_c fl)) = accept_differ_cond fl /\
-  (accept_differ_cond fl = true -> decide_c fl = Reject 7 /\ decide_py fl = Pal (negb (qa fl))).
+Lemma primary_pal_flags : forall fl,
+  qprimary fl && any_pal fl && negb (any_nonpal_py fl) && negb (any_cart fl) && qsim fl && xorb (qa fl) (qP fl) && negb (qazero fl) = true ->
+  decide_c fl = Pal (negb (qa fl)) /\ decide_py fl = Pal (negb (qa fl)).
 Proof.
-  intro fl. pose proof (forall15_spec _ chk_acc_all fl) as H. unfold chk_acc in H.
+  intros fl K. pose proof (forall16_spec _ chk_pp_all fl) as H. unfold chk_pp in H.
   rewrite <- py_canon, <- c_canon in H.
-  unfold accept_differ_cond, disagree_cond in *.
-  rewrite canon_primary, canon_pal, canon_nonpal, canon_cart, canon_sim, canon_a, canon_P in H.
-  apply andb_true_iff in H. destruct H as [H1 H2]. apply eqb_prop in H1. split; [exact H1|].
-  intro K. rewrite K in H2. cbn [implb] in H2. apply andb_true_iff in H2. destruct H2 as [A B].
+  rewrite canon_primary, canon_pal, canon_nonpal, canon_cart, canon_sim, canon_a, canon_P, canon_az in H.
+  rewrite K in H. cbn [implb] in H. apply andb_true_iff in H. destruct H as [A B].
   apply dec_eqb_spec in A. apply dec_eqb_spec in B. tauto.
 Qed.
 
@@ -228,53 +205,37 @@ Proof.
   reflexivity.
 Qed.
 
-Lemma parsers_agree_l : forall g, no_nan_values g ->
-  a_primary g && any_pal (flags_of py_has g) = false -> py_decide g = c_decide g.
+Lemma parsers_agree_l : forall g, no_nan_values g -> py_decide g = c_decide g.
 Proof.
-  intros g Hn Hp. unfold py_decide, c_decide. rewrite (flags_eq g Hn).
-  apply agree_flags. exact Hp.
-Qed.
-
-Lemma parsers_disagree_iff_l : forall g, no_nan_values g ->
-  (py_decide g <> c_decide g <-> disagree_cond (flags_of py_has g) = true).
-Proof.
-  intros g Hn. unfold py_decide, c_decide. rewrite (flags_eq g Hn). apply disagree_iff_flags.
-Qed.
-
-Lemma parsers_accept_differ_l : forall g, no_nan_values g ->
-  xorb (is_reject (py_decide g)) (is_reject (c_decide g)) = accept_differ_cond (flags_of py_has g) /\
-  (accept_differ_cond (flags_of py_has g) = true ->
-     c_decide g = Reject 7 /\ py_decide g = Pal (negb (py_has (a_a g)))).
-Proof.
-  intros g Hn. unfold py_decide, c_decide. rewrite (flags_eq g Hn). apply accept_differ_flags.
+  intros g Hn. unfold py_decide, c_decide. rewrite (flags_eq g Hn). apply agree_flags.
 Qed.
 
 (* ---------------------------------------------------------------- witnesses *)
 Definition no_args : args :=
   mkArgs true false false Absent Absent Absent Absent Absent Absent Absent Absent
          Absent Absent Absent Absent Absent Absent Absent Absent Absent Absent Absent Absent Absent
-         Absent Absent Absent Absent.
+         Absent Absent Absent Absent false.
 
 (* sim.add(primary=p0, a=1., h=0.1)  vs  reb_particle_from_fmt(r, "primary a h", p0, 1., 0.1) *)
 Definition w_primary_pal : args :=
   mkArgs true true false Absent Absent Absent Absent Absent Absent Absent Absent
          Given Absent Absent Absent Absent Absent Absent Absent Absent Absent Absent Absent Absent
-         Given Absent Absent Absent.
+         Given Absent Absent Absent false.
 
 Lemma primary_pal_witness :
-  no_nan_values w_primary_pal /\ py_decide w_primary_pal = Pal false /\ c_decide w_primary_pal = Reject 7.
+  no_nan_values w_primary_pal /\ py_decide w_primary_pal = Pal false /\ c_decide w_primary_pal = Pal false.
 Proof. repeat split; unfold no_nan_values, not_nan; repeat split; discriminate. Qed.
 
 (* x=NaN, a=1 : C ignores x and builds the orbit; Python rejects (cartesian + orbital) *)
 Definition w_nan_x : args :=
   mkArgs true false false Absent Absent GivenNaN Absent Absent Absent Absent Absent
          Given Absent Absent Absent Absent Absent Absent Absent Absent Absent Absent Absent Absent
-         Absent Absent Absent Absent.
+         Absent Absent Absent Absent false.
 (* a=NaN, P=1 : C computes a from P; Python rejects (both a and P) *)
 Definition w_nan_a : args :=
   mkArgs true false false Absent Absent Absent Absent Absent Absent Absent Absent
          GivenNaN Given Absent Absent Absent Absent Absent Absent Absent Absent Absent Absent Absent
-         Absent Absent Absent Absent.
+         Absent Absent Absent Absent false.
 
 Lemma nan_witnesses :
   c_decide w_nan_x = Classical false PeriDefault AnDefault /\ py_decide w_nan_x = Reject 8 /\
@@ -282,9 +243,9 @@ Lemma nan_witnesses :
 Proof. repeat split. Qed.
 
 (* m, r, hash never influence the decision *)
-Lemma decision_ignores_m_r_hash : forall s pr hs hs' m m' r r' x y z vx vy vz a P e inc Om om pom f M E l th T h k ix iy,
-  c_decide (mkArgs s pr hs m r x y z vx vy vz a P e inc Om om pom f M E l th T h k ix iy) =
-  c_decide (mkArgs s pr hs' m' r' x y z vx vy vz a P e inc Om om pom f M E l th T h k ix iy) /\
-  py_decide (mkArgs s pr hs m r x y z vx vy vz a P e inc Om om pom f M E l th T h k ix iy) =
-  py_decide (mkArgs s pr hs' m' r' x y z vx vy vz a P e inc Om om pom f M E l th T h k ix iy).
+Lemma decision_ignores_m_r_hash : forall s pr hs hs' m m' r r' x y z vx vy vz a P e inc Om om pom f M E l th T h k ix iy az,
+  c_decide (mkArgs s pr hs m r x y z vx vy vz a P e inc Om om pom f M E l th T h k ix iy az) =
+  c_decide (mkArgs s pr hs' m' r' x y z vx vy vz a P e inc Om om pom f M E l th T h k ix iy az) /\
+  py_decide (mkArgs s pr hs m r x y z vx vy vz a P e inc Om om pom f M E l th T h k ix iy az) =
+  py_decide (mkArgs s pr hs' m' r' x y z vx vy vz a P e inc Om om pom f M E l th T h k ix iy az).
 Proof. intros. split; reflexivity. Qed.
